@@ -13,5 +13,5 @@ CONSTANTS
   NF = 2
   Modes = {0, 1}
   Full = TRUE
-INVARIANTS CountMatches RootsMatchNaive ProofsMatchNaive MemberSound SupplementSound HistorySound CarrierSound KindsDisjoint
+INVARIANTS CountMatches RootsMatchNaive ProofsMatchNaive MemberSound SupplementSound HistorySound CarrierSound KindsDisjoint ReuseSound
 CHECK_DEADLOCK FALSE
